@@ -657,22 +657,28 @@ pub fn monitored_collect(acc: &mut Acc, wd: &mut PairWorld, user: usize) {
                     wd.sent[i] += d as u128;
                 }
             }
-            if got != expect {
-                let sub = pre.pend.iter().any(|p| *p > 0 && *p <= 1000);
-                let only_missing_sub = sub && {
-                    // the transfers that did happen are exactly those with pending > 1000
-                    let mut e2: Vec<(String, String, i128)> = vec![];
-                    for i in 0..2 {
-                        if pre.pend[i] > 1000 {
-                            e2.push((wd.pair.addr.to_string(), wd.pair.assets[i].id(), -(pre.pend[i] as i128)));
-                            e2.push((wd.core.collector.to_string(), wd.pair.assets[i].id(), pre.pend[i] as i128));
-                        }
+            // every transfer made is the full pending amount of its asset, pool -> collector, nothing else moves;
+            // an asset whose pending amount is not transferred must stay in the ledger (judged by A1)
+            let mut allowed = true;
+            let mut explained: Vec<(String, String, i128)> = vec![];
+            for i in 0..2 {
+                let dp = got.iter().find(|(a, s, _)| *a == wd.pair.addr.to_string() && *s == wd.pair.assets[i].id()).map(|x| x.2).unwrap_or(0);
+                let dc = got.iter().find(|(a, s, _)| *a == wd.core.collector.to_string() && *s == wd.pair.assets[i].id()).map(|x| x.2).unwrap_or(0);
+                if dp == 0 && dc == 0 {
+                    if pre.pend[i] > 0 {
+                        acc.count("collect.deferred-pending-amount");
                     }
-                    e2.sort();
-                    e2 == got
-                };
-                let sig = if only_missing_sub { "A2/pair/collect/pending<=1000-cleared-but-not-transferred" } else { "A2/pair/collect/unexpected-balance-changes" };
-                acc.violation("C07", sig, viol_detail(wd, json!({"expected": format!("{expect:?}"), "got": format!("{got:?}"), "step": what})));
+                    continue;
+                }
+                if dp != -(pre.pend[i] as i128) || dc != pre.pend[i] as i128 {
+                    allowed = false;
+                }
+                explained.push((wd.pair.addr.to_string(), wd.pair.assets[i].id(), dp));
+                explained.push((wd.core.collector.to_string(), wd.pair.assets[i].id(), dc));
+            }
+            explained.sort();
+            if !allowed || explained != got {
+                acc.violation("C07", "A2/pair/collect/unexpected-balance-changes", viol_detail(wd, json!({"pending": format!("{:?}", pre.pend), "expected_if_all_sent": format!("{expect:?}"), "got": format!("{got:?}"), "step": what})));
             }
             if post.r != pre.r || post.s != pre.s {
                 let sub = pre.pend.iter().any(|p| *p > 0 && *p <= 1000);
@@ -1156,7 +1162,7 @@ pub fn run_cp_histories(ctx: &Ctx, shard: u64, acc: &mut Acc, n_hist: u64, steps
 pub fn run_histories(ctx: &Ctx, shard: u64, acc: &mut Acc, n_hist: u64, steps: u64, prop: &str, kind: Kind) {
     let ph = hash_str(if kind == Kind::Cp { "pairs-cp" } else { "pairs-stable" });
     for h in 0..ctx.scaled(n_hist) {
-        let hid = 1_000_000_000 + h; // history ids of the e2e part are offset so that replay can tell them apart
+        let hid = if kind == Kind::Cp { 1_000_000_000 } else { 1_100_000_000 } + h; // history ids of the e2e parts are offset so that replay can tell them apart
         if let Some(rp) = &ctx.replay {
             if rp.history != hid {
                 continue;
